@@ -498,7 +498,14 @@ func (self *Runtime) reattachToPipestance(psid string, pipestancePath string,
 		}
 		// Check if _invocation has changed.
 		if !bytes.Equal(src, data) {
-			return nil, &PipestanceInvocationError{psid, invocationPath}
+			// The invocation was recorded with the environment variables
+			// in it expanded, as it was compiled.
+			if expanded := []byte(os.ExpandEnv(string(src))); bytes.Equal(
+				expanded, data) {
+				src = expanded
+			} else {
+				return nil, &PipestanceInvocationError{psid, invocationPath}
+			}
 		}
 	}
 	// Instantiate the pipestance.
